@@ -6,7 +6,14 @@ Only failures whose clause id starts with '<property>.' count for that property;
 unit may serve several properties.
 """
 
+U1_WRITE = ["U1.write", "U1.end", "U1.flush", "U1.new"]
+
 PROPS = {
+    "C04": {
+        "title": "Outbound bytes are well-framed, including messages of 16 MiB and more",
+        "kani": [],
+        "verus": [("u1_packet", U1_WRITE)],
+    },
     "C15": {
         "title": "Integer results are exact or refused, never silently altered",
         "kani": [("k4_ints", None)],
